@@ -188,3 +188,118 @@ def rref(rows, ncols):
 def same_rowspace(a_rows, b_rows, ncols):
     """exact: reduced row echelon forms (unique per row space) coincide"""
     return rref(a_rows, ncols) == rref(b_rows, ncols)
+
+
+# ------------------------------------------------------------------ scheduler cases
+def gen_sched_case(rng, max_points=600):
+    """(template plain, schedule plain, family).  Families:
+       derived : the schedule contains (a permutation of) the template's columns among extra dims
+       tiled   : the template is a tiling of a small base pattern (test_tiling_* shape)
+       random  : independent template and schedule"""
+    fam = rng.choice(["derived", "derived", "derived", "tiled", "tiled", "random"])
+    nops = rng.choice([1, 1, 2, 2, 3, 3, 4])
+    if fam == "random":
+        nres = [rng.choice([1, 1, 2, 2, 3]) for _ in range(nops)]
+        tp = gen_template_plain(rng, nops=nops, nres_list=nres)
+        sp = gen_schedule_plain(rng, ndims=rng.choice([1, 2, 2, 3, 3, 4]), nops=nops if rng.random() < 0.9 else nops + 1,
+                                max_points=max_points, nres_list=[max(0, r - rng.choice([0, 0, 0, 1])) for r in nres] + [1])
+        return tp, sp, fam
+    if fam == "derived":
+        td = rng.choice([1, 1, 2, 2, 3])
+        nres = [rng.choice([1, 1, 2, 2, 3]) for _ in range(nops)]
+        style = rng.choice(["unit", "unit", "sparse", "tiled"])
+        tb = [rng.choice([None, None, 2, 2, 3, 4, 8]) for _ in range(td)]
+        trows = [gen_matrix(rng, nres[o], td, style) for o in range(nops)]
+        n = rng.choice([max(1, td - 1), td, td, td + 1, td + 1, td + 2])
+        n = min(n, 4)
+        pos = rng.sample(range(n), min(td, n))          # schedule dim of template dim j (for j < len(pos))
+        while True:
+            sb = [rng.choice(BOUNDS) for _ in range(n)]
+            for j, q in enumerate(pos):
+                if tb[j]:
+                    sb[q] = tb[j] * rng.choice([1, 1, 2, 3]) if rng.random() < 0.85 else rng.choice(BOUNDS)
+            tot = 1
+            for b in sb:
+                tot *= b
+            if tot <= max_points:
+                break
+        sp = []
+        for o in range(nops):
+            drop = 1 if (nres[o] > 1 and rng.random() < 0.15) else 0   # broadcast: schedule has fewer results
+            rows = [[0] * n for _ in range(nres[o] - drop)]
+            for i in range(nres[o] - drop):
+                for q in range(n):
+                    if q in pos:
+                        rows[i][q] = trows[o][i + drop][pos.index(q)]
+                    else:
+                        rows[i][q] = rng.choice([0, 0, 0, 1, 2]) if rng.random() < 0.5 else 0
+            sp.append((list(sb), rows, [0] * (nres[o] - drop)))
+        tp = [(list(tb), trows[o], [0] * nres[o]) for o in range(nops)]
+        return tp, sp, fam
+    # tiled: base pattern over m dims; template splits some dims into (outer None, inner t)
+    m = rng.choice([1, 1, 2, 2])
+    nres = [rng.choice([1, 1, 2]) for _ in range(nops)]
+    base = [gen_matrix(rng, nres[o], m, "unit") for o in range(nops)]
+    split = [rng.choice([None, 2, 2, 4]) for _ in range(m)]
+    tb, tcols = [], [[] for _ in range(nops)]
+    for j in range(m):
+        t = split[j]
+        if t:
+            if rng.random() < 0.7:
+                tb += [None, t]
+                for o in range(nops):
+                    tcols[o] += [[t * base[o][i][j] for i in range(nres[o])], [base[o][i][j] for i in range(nres[o])]]
+            else:
+                tb += [t]
+                for o in range(nops):
+                    tcols[o] += [[base[o][i][j] for i in range(nres[o])]]
+        else:
+            tb += [None]
+            for o in range(nops):
+                tcols[o] += [[base[o][i][j] for i in range(nres[o])]]
+    td = len(tb)
+    trows = [[[tcols[o][j][i] for j in range(td)] for i in range(nres[o])] for o in range(nops)]
+    extra = rng.choice([0, 0, 1])
+    n = m + extra
+    while True:
+        sb = [rng.choice(BOUNDS) for _ in range(extra)] + [(split[j] or 1) * rng.choice([1, 2, 2, 3, 4]) for j in range(m)]
+        tot = 1
+        for b in sb:
+            tot *= b
+        if tot <= max_points:
+            break
+    sp = []
+    for o in range(nops):
+        rows = [[rng.choice([0, 0, 1]) for _ in range(extra)] + list(base[o][i]) for i in range(nres[o])]
+        sp.append((list(sb), rows, [0] * nres[o]))
+    tp = [(list(tb), trows[o], [0] * nres[o]) for o in range(nops)]
+    return tp, sp, fam
+
+
+def gen_checks(rng, nops):
+    """(python callables, Coq list literal, description)"""
+    from snaxc.ir.dart.scheduler import is_memory_flexible_enough, is_pure_output_stationary
+    which = rng.choice(["none", "none", "pos", "pos", "mem", "both", "both"])
+    sizes = [rng.choice([1, 1, 2, 4, 8]) for _ in range(nops)]
+    py, cq = [], []
+    if which in ("pos", "both"):
+        py.append(is_pure_output_stationary)
+        cq.append("is_pure_output_stationary")
+    if which in ("mem", "both"):
+        py.append(lambda t, s, sizes=sizes: is_memory_flexible_enough(t, s, sizes))
+        cq.append(f"is_memory_flexible_enough {zlist(sizes)}")
+    return py, "[" + "; ".join(cq) + "]", {"checks": which, "sizes": sizes}
+
+
+def run_backtrack(T, s, checks, cap=400):
+    """(yielded list, raised?) or None when more than cap results"""
+    from snaxc.ir.dart.scheduler import scheduler_backtrack
+    out, raised = [], False
+    try:
+        for r in scheduler_backtrack(T, s, extra_checks=checks):
+            out.append(r)
+            if len(out) > cap:
+                return None
+    except ERRS:
+        raised = True
+    return out, raised
